@@ -625,6 +625,10 @@ def decode_template(bs):
             elif b == 0xC0:
                 out.append(("arg", None))
                 i += 1
+            elif b == 0xC8 and i + 2 < len(bs):
+                # placeholder with an explicit argument position (an argument used twice, e.g. `{sep}…{sep}`): u16 little endian
+                out.append(("arg", bs[i + 1] | (bs[i + 2] << 8)))
+                i += 3
             else:
                 return None
         return out
@@ -658,15 +662,22 @@ def fmt_pieces(v):
             args = [(k.kids[0] if (k.kind == "call" and k.kids) else k) for k in arr.kids]
     out = []
     ai = 0
+    used = set()
     for (k, x) in pieces:
         if k == "lit":
             out.append(("lit", x))
+        elif x is not None:
+            if x >= len(args):
+                return None
+            out.append(("arg", args[x]))
+            used.add(x)
         else:
             if ai >= len(args):
                 return None
             out.append(("arg", args[ai]))
+            used.add(ai)
             ai += 1
-    if ai != len(args):
+    if used != set(range(len(args))):
         return None
     return out
 
@@ -691,3 +702,96 @@ def private_helpers_of(fx, view):
                 ok.discard(h)
                 changed = True
     return ok
+
+
+def param_roots(v, _memo=None, _depth=0):
+    """set of parameter indices the value can derive from; component-aware for `a.iter().zip(b)` items: `.0` of an item comes from a, `.1` from b"""
+    if _memo is None:
+        _memo = {}
+    k = id(v)
+    if k in _memo:
+        return _memo[k]
+    _memo[k] = set()
+    out = set()
+    if v.kind == "param":
+        out.add(v.d["idx"])
+    elif v.kind == "field" and isinstance(v.d.get("idx"), int) and v.d.get("adt") in (None,) and v.kids:
+        z = _zip_of_item(v.kids[0])
+        if z is not None and v.d["idx"] < len(z.kids):
+            out |= param_roots(z.kids[v.d["idx"]], _memo, _depth + 1)
+        else:
+            out |= param_roots(v.kids[0], _memo, _depth + 1)
+    else:
+        for x in v.kids:
+            out |= param_roots(x, _memo, _depth + 1)
+    _memo[k] = out
+    return out
+
+
+def _zip_of_item(v, depth=0):
+    """if v is the item of a loop over `zip(A, B)` ((next(..) as Some).0), the zip call node"""
+    v = peel(v)
+    g = 0
+    while v.kind in ("variant", "field") and v.kids and g < 4:
+        if v.kind == "field" and v.d.get("adt") not in (OPTION,):
+            return None
+        v = peel(v.kids[0])
+        g += 1
+    if not (v.kind == "call" and v.d["term"].get("name") == "next" and v.kids):
+        return None
+    seen = set()
+    stack = [v.kids[0]]
+    while stack:
+        x = peel(stack.pop())
+        if id(x) in seen:
+            continue
+        seen.add(id(x))
+        if x.kind == "call" and x.d["term"].get("name") == "zip" and len(x.kids) == 2:
+            return x
+        if x.kind in ("phi", "alias"):
+            stack.extend(x.kids)
+        elif x.kind == "mut" and x.kids:
+            stack.append(x.kids[0])
+        elif x.kind == "call" and x.d["term"].get("name") in ("into_iter", "iter", "enumerate", "by_ref", "peekable") and x.kids:
+            stack.append(x.kids[0])
+    return None
+
+
+class RelabelCtx:
+    """re-judge a shared rule under another rule id, optionally keeping only the obligations whose `what` starts with one of `keep`"""
+    def __init__(self, ctx, rule, keep=None, config=None):
+        self.ctx, self.rule, self.keep, self.config = ctx, rule, keep, config
+
+    def _k(self, a):
+        what = a[1] if len(a) > 1 else ""
+        return self.keep is None or any((what or "").startswith(p) for p in self.keep)
+
+    def _kw(self, k):
+        if self.config:
+            k["config"] = self.config
+        return k
+
+    def ok(self, rule, *a, **k):
+        if self._k(a):
+            return self.ctx.ok(self.rule, *a, **self._kw(k))
+
+    def finding(self, rule, *a, **k):
+        if self._k(a):
+            return self.ctx.finding(self.rule, *a, **self._kw(k))
+
+    def missing(self, rule, what, why, **k):
+        return self.ctx.missing(self.rule, what, why, **self._kw(k))
+
+    def floor(self, rule, *a, **k):
+        if self.keep is None:
+            return self.ctx.floor(self.rule, *a, **self._kw(k))
+
+    def info(self, *a, **k):
+        return None
+
+    def facts(self, *a, **k):
+        return self.ctx.facts(*a, **k)
+
+    @property
+    def stats(self):
+        return self.ctx.stats
